@@ -128,3 +128,88 @@ func EvalNoClear(env *zygo.Zlisp, src string) (res Res) {
 	}
 	return Res{Val: s, Sexp: v}
 }
+
+// Canon renders a value for comparison with the reference evaluator:
+// functions print as <fn>, everything else as the library prints it.
+func Canon(v zygo.Sexp) string {
+	switch x := v.(type) {
+	case nil:
+		return "GONIL"
+	case *zygo.SexpFunction:
+		return "<fn>"
+	case *zygo.SexpPair:
+		// proper list?
+		var parts []string
+		var cur zygo.Sexp = x
+		for {
+			p, ok := cur.(*zygo.SexpPair)
+			if !ok {
+				break
+			}
+			parts = append(parts, Canon(p.Head))
+			cur = p.Tail
+		}
+		if cur != zygo.SexpNull {
+			return x.SexpString(nil)
+		}
+		return "(" + strings.Join(parts, " ") + ")"
+	case *zygo.SexpArray:
+		parts := make([]string, len(x.Val))
+		for i, e := range x.Val {
+			parts[i] = Canon(e)
+		}
+		return "[" + strings.Join(parts, " ") + "]"
+	}
+	return v.SexpString(nil)
+}
+
+// Traced is an interpreter with the host functions the program grammars
+// use: (t x) logs x and returns it; (h x) does the same but fails on its
+// FailAt-th call (returning an error, or panicking when PanicKind);
+// (fail x) always fails.
+type Traced struct {
+	Env       *zygo.Zlisp
+	Trace     []string
+	HCalls    int
+	FailAt    int
+	PanicKind bool
+}
+
+func NewTraced(std bool) *Traced {
+	tr := &Traced{Env: New(std)}
+	tr.Env.AddFunction("t", func(env *zygo.Zlisp, name string, args []zygo.Sexp) (zygo.Sexp, error) {
+		if len(args) != 1 && len(args) != 2 {
+			return zygo.SexpNull, fmt.Errorf("t: arity")
+		}
+		tr.Trace = append(tr.Trace, Canon(args[0]))
+		return args[len(args)-1], nil
+	})
+	tr.Env.AddFunction("h", func(env *zygo.Zlisp, name string, args []zygo.Sexp) (zygo.Sexp, error) {
+		if len(args) != 1 && len(args) != 2 {
+			return zygo.SexpNull, fmt.Errorf("h: arity")
+		}
+		tr.HCalls++
+		if tr.FailAt != 0 && tr.HCalls == tr.FailAt {
+			tr.Trace = append(tr.Trace, "FAIL@"+Canon(args[0]))
+			if tr.PanicKind {
+				panic("INJECTED")
+			}
+			return zygo.SexpNull, fmt.Errorf("INJECTED")
+		}
+		tr.Trace = append(tr.Trace, Canon(args[0]))
+		return args[len(args)-1], nil
+	})
+	tr.Env.AddFunction("fail", func(env *zygo.Zlisp, name string, args []zygo.Sexp) (zygo.Sexp, error) {
+		return zygo.SexpNull, fmt.Errorf("INJECTED")
+	})
+	return tr
+}
+
+// Run evaluates src; the value is rendered with Canon.
+func (tr *Traced) Run(src string) Res {
+	r := EvalNoClear(tr.Env, src)
+	if r.OK() {
+		r.Val = Canon(r.Sexp)
+	}
+	return r
+}
